@@ -175,6 +175,9 @@ def spec_builtin(I, st, name, args, kwargs, node):
         from . import asyncio_model
         which = node.args[0].value if node.args else "time"
         return asyncio_model.clock_value(I, st, which, old=st.in_old and st.old_heap is None)
+    if name == "gathered_count":
+        from . import asyncio_model
+        return mkint(asyncio_model.gathered_count(I, st, node.args[0].value, args[1]))
     if name == "rank":
         d, k = args
         kd = I.kd_of(d)
